@@ -16,6 +16,13 @@ CHECKS = {
                      "the space is enumerated completely, per stream buffer size.",
                 note="trusted: VDI layout transcription in mc/builders/vdi.py (VDICore.h), CPython, dissect.util "
                      "AlignedStream; windows larger than the bound rest on translation invariance of the block arithmetic"),
+    "C06": dict(level=MC, ref="DESIGN.md section 4 C06",
+                text="Every HDS image of the bounded space (version 1/2 x sectors per cluster x size form x every "
+                     "hole/data assignment and injective placement of a 4-5 cluster window into file slots 1..W+1 x v1 "
+                     "sector skew) and plain/expanding .hdd directories opened through HDD(path).open() are read with "
+                     "every boundary request and compared with a reference disk model; complete enumeration per buffer size.",
+                note="trusted: parallels.txt / prl-xml.txt transcription in mc/builders/hdd.py (cross-checked against "
+                     "the repository's expanding.hdd fixture), CPython, AlignedStream"),
 }
 
 PENDING_REASON = "check not built yet in this session (planned in DESIGN.md section 4); not claimed until it runs"
